@@ -4,9 +4,11 @@ use crate::report::Ctx;
 pub mod c01;
 pub mod c03;
 pub mod c04;
+pub mod c07;
 pub mod c10;
 pub mod c11;
 pub mod c14;
+pub mod c15;
 pub mod c16;
 
 pub fn run(prop: &str, ctx: &mut Ctx) -> bool {
@@ -14,9 +16,11 @@ pub fn run(prop: &str, ctx: &mut Ctx) -> bool {
         "C01" => c01::run(ctx),
         "C03" => c03::run(ctx),
         "C04" => c04::run(ctx),
+        "C07" => c07::run(ctx),
         "C10" => c10::run(ctx),
         "C11" => c11::run(ctx),
         "C14" => c14::run(ctx),
+        "C15" => c15::run(ctx),
         "C16" => c16::run(ctx),
         _ => return false,
     }
@@ -30,9 +34,11 @@ pub fn replay(prop: &str, ctx: &mut Ctx, file: &J) {
         "C01" => c01::replay(ctx, &case),
         "C03" => c03::replay(ctx, &case),
         "C04" => c04::replay(ctx, &case),
+        "C07" => c07::replay(ctx, &case),
         "C10" => c10::replay(ctx, &case),
         "C11" => c11::replay(ctx, &case),
         "C14" => c14::replay(ctx, &case),
+        "C15" => c15::replay(ctx, &case),
         "C16" => c16::replay(ctx, &case),
         _ => {}
     }
